@@ -220,12 +220,6 @@ Proof.
 Qed.
 
 (* ---------- all axes: Mesh(region, cell) accepts a cell that divides every edge ---------- *)
-Inductive axes : list Q -> list Q -> list Z -> list Q -> Prop :=
-| axes_nil : axes [] [] [] []
-| axes_cons lo hi k c los his ks cs :
-    lo < hi -> (0 < k)%Z -> inject_Z k * c == hi - lo -> axes los his ks cs ->
-    axes (lo :: los) (hi :: his) (k :: ks) (c :: cs).
-
 Lemma axes_lengths los his ks cs : axes los his ks cs ->
   length his = length los /\ length ks = length los /\ length cs = length los.
 Proof. induction 1; simpl; [auto | intuition lia]. Qed.
